@@ -27,6 +27,13 @@ impl<K: SimKey, S: HB> SlruSubj<K, S> {
                     .set_protected_hasher(hq)
                     .set_probationary_hasher(hp)
             )),
+            // the size setters in the other order, over different initial sizes
+            2 => lib!(SegmentedCacheBuilder::new(cq + 1, cp + 2)
+                .set_probationary_hasher(hp)
+                .set_protected_size(cq)
+                .set_protected_hasher(hq)
+                .set_probationary_size(cp)
+                .finalize::<K, TV>()),
             _ => return Err("bad ctor".into()),
         };
         r.map(|c| SlruSubj { c: Some(c) }).map_err(|e| format!("{:?}", e))
@@ -39,9 +46,13 @@ pub fn construct_rs<K: SimKey>(h: &Header) -> Result<SlruSubj<K, caches::Default
     let r = match h.ctor {
         0 => lib!(SegmentedCache::<K, TV>::new(cp, cq)),
         1 => lib!(SegmentedCache::<K, TV>::builder(cp, cq).finalize()),
-        _ => lib!(SegmentedCacheBuilder::default()
+        2 => lib!(SegmentedCacheBuilder::default()
             .set_probationary_size(cp)
             .set_protected_size(cq)
+            .finalize()),
+        _ => lib!(SegmentedCache::<K, TV>::builder(cq + 1, cp + 2)
+            .set_protected_size(cq)
+            .set_probationary_size(cp)
             .finalize()),
     };
     r.map(|c| SlruSubj { c: Some(c) }).map_err(|e| format!("{:?}", e))
